@@ -173,6 +173,21 @@ pub fn check(c: &Case, obs: &mut Obs) -> Result<(), String> {
         }
         obs.class("summary-accessors-compared");
     }
+    // the version PkgName reports is the version the matcher sees: base>=version and base<=version
+    // (reflexivity, C03) must match the name itself
+    if has_dash && !n.contains(['<', '>', '{', '}']) && !version.starts_with('=') && crate::models::dewey::numbers_in_domain(version) {
+        for op in [">=", "<="] {
+            let pat = format!("{}{}{}", base, op, version);
+            obs.verdicts += 1;
+            if !matches(&pat, n)? {
+                return Err(format!(
+                    "{:?} has PKGBASE {:?} and PKGVERSION {:?}, but the pattern {:?} built from them does not match it",
+                    n, base, version, pat
+                ));
+            }
+        }
+        obs.class("reflexive-pattern-probed");
+    }
     // best_match compares the same PKGVERSION (text after the last '-') and revision
     if has_dash && crate::models::dewey::longest_digit_run(version) <= 17 {
         let star = Pattern::new("*").map_err(|e| e.to_string())?;
@@ -189,6 +204,14 @@ pub fn check(c: &Case, obs: &mut Obs) -> Result<(), String> {
             for (x, y) in [(n, higher.as_str()), (higher.as_str(), n)] {
                 obs.verdicts += 1;
                 if star.best_match(x, y) != Some(higher.as_str()) {
+                    return Err(format!("best_match('*'; {:?}, {:?}) = {:?}: the candidate with the higher PKGREVISION must win", x, y, star.best_match(x, y)));
+                }
+            }
+            // a candidate with a longer base and the higher revision (both match '*')
+            let longer = format!("zz{}", higher);
+            for (x, y) in [(n, longer.as_str()), (longer.as_str(), n)] {
+                obs.verdicts += 1;
+                if star.best_match(x, y) != Some(longer.as_str()) {
                     return Err(format!("best_match('*'; {:?}, {:?}) = {:?}: the candidate with the higher PKGREVISION must win", x, y, star.best_match(x, y)));
                 }
             }
